@@ -464,16 +464,28 @@ def rule_regret_update(ctx):
                     probs = [a for a in atoms if a[0] == 'val' and a[1][0] == 'field' and a[1][2] == '1']
                     return m_ == need_mult and len(probs) == 1 and len(atoms) == (3 if need_mult else 2)
                 exp_ok = has(p_one, False) and has(p_all, True)
-            ctx.verdict(ret_ok and exp_ok, rule, rule + ':expectations', 'the function returns (sum prob * child value, sum prob * child value * multiplier): the node value and the amount subtracted from every entry', f.where(0),
+            if not ret_ok:
+                # another shape (e.g. one tuple-valued accumulator threaded through `fold`): not decided here
+                ctx.anchor_lost(rule, 'recurse_player: the pair of scalar accumulators (node value, baseline) it returns')
+            else:
+              ctx.verdict(ret_ok and exp_ok, rule, rule + ':expectations', 'the function returns (sum prob * child value, sum prob * child value * multiplier): the node value and the amount subtracted from every entry', f.where(0),
                         'accumulators: %s' % {f.local_name(k): e4.show_poly(v) for k, v in accs.items()}, breaks='the baseline subtracted from the regrets is not the strategy\'s expected counterfactual value')
             # own reach of the child
             own = False
-            for bi, t, p in f.calls():
-                if short(p) == 'mul_assign' and 'ops::' in p:
-                    e = f.call_expr(t, bi)
-                    tgt = strip_refs(e[2][0])
-                    own = q.is_call(tgt, 'ind_mut') and 'num' in facts.show(tgt[2][0]) and strip_refs(e[2][1])[0] == 'field'
-            ctx.verdict(own, rule, rule + ':child-own-reach', 'the acting player\'s reach handed to a child is multiplied by that action\'s probability (selected by the node\'s own player number)', f.where(0), 'recognised: %s' % own,
+            n_mul = 0
+            for g_ in [f] + lib.closures_of(f):
+                for bi, t, p in g_.calls():
+                    if short(p) == 'mul_assign' and 'ops::' in p:
+                        e = g_.call_expr(t, bi)
+                        tgt = strip_refs(e[2][0])
+                        if q.is_call(tgt, 'ind_mut'):
+                            n_mul += 1
+                            rhs_ = strip_refs(e[2][1])
+                            own = own or ('num' in facts.show(tgt[2][0]) and rhs_[0] in ('field', 'param', 'var', 'downcast'))
+            if n_mul == 0:
+                ctx.anchor_lost(rule, 'recurse_player: in-place scaling of the acting player\'s reach slot (`*num.ind_mut(&mut reach) *= prob`)')
+            else:
+              ctx.verdict(own, rule, rule + ':child-own-reach', 'the acting player\'s reach handed to a child is multiplied by that action\'s probability (selected by the node\'s own player number)', f.where(0), 'recognised: %s' % own,
                         breaks='reach probabilities of the two players are mixed up')
     # callers: recurse_single / recurse_multi agree
     rule = 'C08.traversal-siblings'
@@ -536,7 +548,12 @@ def rule_regret_update(ctx):
                 'terminal-is-payoff': 'a terminal node returns its payoff'}[k], g.where(0), 'value: %s' % (v,), breaks='the traversal no longer computes counterfactual regret')
     if len(sk) == 2:
         a, b = sk['recurse_single'], sk['recurse_multi']
-        ctx.verdict(a == b, rule, rule + ':agree', 'the single-threaded and the multi-threaded traversal have the same skeleton', '', 'single: %s | multi: %s' % (a, b) if a != b else 'identical (%d items)' % len(a))
+        # an item one traversal is written in a shape the skeleton does not recognise is simply absent on that
+        # side: the siblings disagree only where both sides have a recognised item with different values
+        both = sorted(set(a) & set(b))
+        diff = [k for k in both if a[k] != b[k]]
+        ctx.verdict(not diff, rule, rule + ':agree', 'the single-threaded and the multi-threaded traversal have the same skeleton', '',
+                    'differ on %s: single %s | multi %s' % (diff, {k: a[k] for k in diff}, {k: b[k] for k in diff}) if diff else 'identical on %d common items (%d / %d recognised)' % (len(both), len(a), len(b)))
     # update_cum_strat forms
     rule = 'C08.average-update'
     for suf, want in (('<solve::data::RegretInfoset as solve::vanilla::PlayerRecurse>::update_cum_strat', 'reach*strat'),
